@@ -545,6 +545,15 @@ func (c *cluster) checkConverged() {
 	if c.blackbox {
 		return
 	}
+	if c.traceOn {
+		defer func() {
+			for _, id := range c.upIDs() {
+				r := c.nodes[id].r
+				c.tracef("checkconv: n%d state=%c term=%d last=%d commit=%d latest=%v", id, r.state, r.term, r.lastLogIndex, r.commitIndex, r.configs.Latest)
+			}
+			c.tracef("checkconv: stranded=%v nomaj=%v nomajlatest=%v converged=%v", c.stats.has("conv-stranded-self-excluded-voter"), c.stats.has("conv-no-majority-up"), c.stats.has("conv-no-majority-of-latest-config"), c.stats.has("converged"))
+		}()
+	}
 	if l.lastCommittedCfg == nil {
 		return
 	}
@@ -561,6 +570,7 @@ func (c *cluster) checkConverged() {
 	}
 	if upVoters < voters/2+1 {
 		c.stats.class("conv-no-majority-up")
+		c.tracef("checkconv: no majority up (%d of %d) of %v", upVoters, voters, cfg)
 		return
 	}
 	// a configuration takes effect when appended: the premise "a majority of the
@@ -581,6 +591,7 @@ func (c *cluster) checkConverged() {
 		}
 		if lv > 0 && lup < lv/2+1 {
 			c.stats.class("conv-no-majority-of-latest-config")
+			c.tracef("checkconv: node %d latest config %v has %d of %d voters healthy", id, c.nodes[id].r.configs.Latest, lup, lv)
 			return
 		}
 	}
@@ -654,4 +665,5 @@ func (c *cluster) checkConverged() {
 		}
 	}
 	c.stats.class("converged")
+	c.tracef("checkconv: converged, leader %d", ldr.id)
 }
